@@ -232,14 +232,14 @@ Qed.
 (** when the gas and nonce decorators are installed, a successful EVM ante pass IS an admission of every
     message, in order: nonce = sequence, sequence + 1, gas × price moved to the fee collector *)
 Lemma evm_admit_admits c ms s s1 :
-  e_gas c = true -> e_seq c = true ->
+  e_gas c = true -> fee_exact c = true -> e_seq c = true ->
   evm_admit c ms s = Some s1 -> exists ls, direct_eth ms = Some ls /\ admit_seq s ls s1.
 Proof.
-  intros Hgas Hseq. revert s. induction ms as [|m ms IH]; intros s H; simpl in H.
+  intros Hgas Hexact Hseq. revert s. induction ms as [|m ms IH]; intros s H; simpl in H.
   - inversion H. subst. exists []. split; [reflexivity|constructor].
   - destruct m as [[a n g p v|?|? ? ?|? ? ? ? ? ?]| | | |]; simpl in H; try discriminate.
-    unfold evm_admit_one in H. rewrite Hgas, Hseq in H.
-    destruct (bal_of s a <? g * p) eqn:Hb; [discriminate|].
+    unfold evm_admit_one in H. rewrite Hgas, Hseq, Hexact in H. unfold prepay in H.
+    destruct (bal_of s a <? g * p / WEI) eqn:Hb; [discriminate|].
     rewrite seq_of_add_fee, seq_of_add_bal in H.
     destruct (Nat.eqb n (seq_of s a)) eqn:Hn; [|discriminate].
     apply IH in H as (ls & Hd & Hadm). exists (EthTx a n g p v :: ls). split.
@@ -266,7 +266,7 @@ Proof.
     simpl in Hl.
     destruct (g <? GAS_TRANSFER); [discriminate|].
     destruct (bal_of s a <? v); [discriminate|].
-    destruct (feecol s <? (g - GAS_TRANSFER) * p); [discriminate|].
+    destruct (feecol s <? refund_of g p); [discriminate|].
     inversion Hl. subst. simpl in *. split; [|exact Hg].
     rewrite Hr. rewrite <- app_assoc. reflexivity.
 Qed.
@@ -274,7 +274,7 @@ Qed.
 (** ---------------------------------------------------------------- what must hold of the code *)
 Definition cfg_ok (c : cfg) : Prop :=
   sig_on c = true /\ sig_accepts_eth c = false /\ wasm_signer c = true /\ signer_recovered c = true /\
-  e_gas c = true /\ e_seq c = true /\ e_sig c = true /\
+  e_gas c = true /\ fee_exact c = true /\ e_seq c = true /\ e_sig c = true /\
   route_tx c NoExt = RouteNonEVM /\ route_tx c OtherExt <> RouteEVM /\
   (route_tx c EvmExt = RouteEVM \/ route_tx c EvmExt = RouteReject).
 
@@ -288,7 +288,7 @@ Lemma route_eqb_eq a b : route_eqb a b = true <-> a = b.
 Proof. destruct a, b; simpl; split; intro H; try discriminate; auto. Qed.
 
 Definition cfg_okb (c : cfg) : bool :=
-  sig_on c && negb (sig_accepts_eth c) && wasm_signer c && signer_recovered c && e_gas c && e_seq c && e_sig c &&
+  sig_on c && negb (sig_accepts_eth c) && wasm_signer c && signer_recovered c && e_gas c && fee_exact c && e_seq c && e_sig c &&
   route_eqb (route_tx c NoExt) RouteNonEVM && negb (route_eqb (route_tx c OtherExt) RouteEVM) &&
   (route_eqb (route_tx c EvmExt) RouteEVM || route_eqb (route_tx c EvmExt) RouteReject).
 
@@ -323,7 +323,7 @@ Theorem deliver_eth_only_behind_evm_ante c w s x :
   grants_ok w s' /\
   exists added, ran s' = added ++ ran s /\ forall l, In l added -> admitted_in s x l.
 Proof.
-  intros (Hsigon & Hsig & Hwasm & Hrecov & Hgas & Hseq & _ & Hno & Hother & Hevm) Hw Hwf Hg.
+  intros (Hsigon & Hsig & Hwasm & Hrecov & Hgas & Hexact & Hseq & _ & Hno & Hother & Hevm) Hw Hwf Hg.
   destruct (route_tx c (t_ext x)) eqn:Hroute.
   - (* non-EVM route: nothing runs *)
     destruct (nonevm_deliver_frame w c Hw Hwasm Hrecov Hsigon Hsig s x Hwf Hg Hroute) as (Hg' & Hran & _).
@@ -336,7 +336,7 @@ Proof.
       [|simpl; split; [exact Hg|exists []; split; [reflexivity|intros l []]]].
     destruct (evm_admit c (t_msgs x) s) as [s1|] eqn:Ha;
       [|simpl; split; [exact Hg|exists []; split; [reflexivity|intros l []]]].
-    destruct (evm_admit_admits c _ _ _ Hgas Hseq Ha) as (ls & Hd & Hadm).
+    destruct (evm_admit_admits c _ _ _ Hgas Hexact Hseq Ha) as (ls & Hd & Hadm).
     assert (Hgr1 : grants s1 = grants s).
     { clear -Hadm. induction Hadm; [reflexivity|]. rewrite IHHadm. reflexivity. }
     assert (Hran1 : ran s1 = ran s).
@@ -416,7 +416,7 @@ Proof.
     + intro b'. simpl in Hl.
       destruct (g <? GAS_TRANSFER); [discriminate|].
       destruct (bal_of s a <? v); [discriminate|].
-      destruct (feecol s <? (g - GAS_TRANSFER) * p); [discriminate|].
+      destruct (feecol s <? refund_of g p); [discriminate|].
       inversion Hl. subst.
       change (seq_of (add_ran _ _) b') with (seq_of (set_seq s a (S n)) b').
       rewrite seq_of_set_seq. destruct (Nat.eqb b' a) eqn:E2.
@@ -431,14 +431,14 @@ Theorem nonce_never_rewound c w s x :
   forall a, w_is_eth w a = true -> (seq_of s a <= seq_of (fst (deliver c w s x)) a)%nat.
 Proof.
   intros Hc Hw Hwf Hg a Ha.
-  pose proof Hc as (Hsigon & Hsig & Hwasm & Hrecov & Hgas & Hseq & _ & Hno & Hother & Hevm).
+  pose proof Hc as (Hsigon & Hsig & Hwasm & Hrecov & Hgas & Hexact & Hseq & _ & Hno & Hother & Hevm).
   destruct (route_tx c (t_ext x)) eqn:Hroute.
   - destruct (nonevm_deliver_frame w c Hw Hwasm Hrecov Hsigon Hsig s x Hwf Hg Hroute) as (_ & _ & He).
     destruct (He a Ha) as [E _]. simpl in E. rewrite E. lia.
   - unfold deliver. rewrite Hroute. unfold evm_ante.
     match goal with |- context [if ?b then _ else _] => destruct b end; [|simpl; lia].
     destruct (evm_admit c (t_msgs x) s) as [s1|] eqn:Hadm0; [|simpl; lia].
-    destruct (evm_admit_admits c _ _ _ Hgas Hseq Hadm0) as (ls & Hd & Hadm).
+    destruct (evm_admit_admits c _ _ _ Hgas Hexact Hseq Hadm0) as (ls & Hd & Hadm).
     destruct (run_msgs c w (t_msgs x) s1) as [s2|] eqn:Hr; simpl.
     + eapply (run_direct_eth_seq c w _ _ (seq_of s) Hd); [|intro b; eapply admit_seq_mono; eauto|exact Hr].
       intros. eapply admit_seq_nonce_ge; eauto.
@@ -449,7 +449,7 @@ Qed.
 
 (** ---------------------------------------------------------------- refunds are covered by prepayments *)
 Definition cost_of (a : addr) (ls : list leaf) : Z :=
-  sumZ (map (fun l => match l with EthTx b _ g p _ => if Nat.eqb a b then g * p else 0 | _ => 0 end) ls).
+  sumZ (map (fun l => match l with EthTx b _ g p _ => if Nat.eqb a b then (g * p) / WEI else 0 | _ => 0 end) ls).
 
 Lemma admit_seq_bal s ls s1 : admit_seq s ls s1 -> forall b, bal_of s1 b = bal_of s b - cost_of b ls.
 Proof.
@@ -466,7 +466,8 @@ Lemma cost_of_nonneg a ls : Forall leaf_nonneg ls -> 0 <= cost_of a ls.
 Proof.
   induction 1 as [|l r Hl _ IH]; [unfold cost_of; simpl; lia|].
   unfold cost_of in *. simpl. destruct l as [b n g p v|?|? ? ?|? ? ? ? ? ?]; simpl in *; try lia.
-  destruct (Nat.eqb a b); [|lia]. destruct Hl as (Hg & Hp & Hv). nia.
+  destruct (Nat.eqb a b); [|lia]. destruct Hl as (Hg & Hp & Hv).
+  assert (0 <= g * p / WEI) by (apply Z.div_pos; [nia|unfold WEI; lia]). lia.
 Qed.
 
 Lemma run_direct_eth_bal c w ms ls :
@@ -486,14 +487,14 @@ Proof.
     simpl in Hl.
     destruct (g <? GAS_TRANSFER) eqn:Hg; [discriminate|].
     destruct (bal_of s a <? v); [discriminate|].
-    destruct (feecol s <? (g - GAS_TRANSFER) * p); [discriminate|].
+    destruct (feecol s <? refund_of g p); [discriminate|].
     inversion Hl. subst. clear Hl.
     change (bal_of (add_ran ?x _) b) with (bal_of x b) in IH.
     rewrite bal_of_add_fee, !bal_of_add_bal, bal_of_set_seq in IH.
     unfold cost_of. simpl. fold (cost_of b r).
     destruct (Nat.eqb b (w_sink w)) eqn:E1; [apply Nat.eqb_eq in E1; contradiction|].
-    unfold GAS_TRANSFER in *.
-    assert (Hle : (g - 21000) * p <= g * p) by nia.
+    assert (Hle : refund_of g p <= g * p / WEI).
+    { unfold refund_of, GAS_TRANSFER. apply Z.div_le_mono; [unfold WEI; lia|nia]. }
     destruct (Nat.eqb b a) eqn:E2; [apply Nat.eqb_eq in E2; subst|rewrite bal_of_set_seq in IH]; lia.
 Qed.
 
@@ -517,14 +518,14 @@ Theorem refund_covered_by_prepayment c w s x :
   forall a, w_is_eth w a = true -> bal_of (fst (deliver c w s x)) a <= bal_of s a.
 Proof.
   intros Hc Hvb Hw Hwf Hg a Ha.
-  pose proof Hc as (Hsigon & Hsig & Hwasm & Hrecov & Hgas & Hseq & _ & Hno & Hother & Hevm).
+  pose proof Hc as (Hsigon & Hsig & Hwasm & Hrecov & Hgas & Hexact & Hseq & _ & Hno & Hother & Hevm).
   destruct (route_tx c (t_ext x)) eqn:Hroute.
   - destruct (nonevm_deliver_frame w c Hw Hwasm Hrecov Hsigon Hsig s x Hwf Hg Hroute) as (_ & _ & He).
     destruct (He a Ha) as [_ E]. simpl in E. rewrite E. lia.
   - unfold deliver. rewrite Hroute. unfold evm_ante. rewrite Hvb.
     match goal with |- context [if ?b then _ else _] => destruct b eqn:Hcond end; [|simpl; lia].
     destruct (evm_admit c (t_msgs x) s) as [s1|] eqn:Hadm0; [|simpl; lia].
-    destruct (evm_admit_admits c _ _ _ Hgas Hseq Hadm0) as (ls & Hd & Hadm).
+    destruct (evm_admit_admits c _ _ _ Hgas Hexact Hseq Hadm0) as (ls & Hd & Hadm).
     pose proof (admit_seq_bal _ _ _ Hadm a) as Hb1.
     apply andb_true_iff in Hcond as [Hcond _]. apply andb_true_iff in Hcond as [_ Hcond].
     apply andb_true_iff in Hcond as [Hcond _]. apply andb_true_iff in Hcond as [_ Hbasic].
@@ -538,7 +539,7 @@ Proof.
 Qed.
 
 (** ---------------------------------------------------------------- what the statement needs: refutations *)
-Definition eth (a : addr) (n : nat) (g : Z) : msg := Leaf (EthTx a n g 1 1).
+Definition eth (a : addr) (n : nat) (g : Z) : msg := Leaf (EthTx a n g WEI 1).
 Definition evm_tx (ms : list msg) : tx := {| t_ext := EvmExt; t_signer := 98; t_key := KNone; t_fee := 1000000; t_msgs := ms |}.
 Definition cos_tx (s : addr) (ms : list msg) : tx := {| t_ext := NoExt; t_signer := s; t_key := KCosmos; t_fee := 1000000; t_msgs := ms |}.
 Definition ek_tx (s : addr) (ms : list msg) : tx := {| t_ext := NoExt; t_signer := s; t_key := KEth; t_fee := 1000000; t_msgs := ms |}.
@@ -555,7 +556,7 @@ Definition violated_by (c : cfg) (h : list tx) (x : tx) (a : addr) : Prop :=
 Definition cfg_eth_keys_accepted : cfg :=
   {| nonevm_known := true; evm_route := RouteEVM; other_route := RouteReject; other_decodable := false;
      g_prevent := true; g_authz := true; g_authz_exec := true; g_authz_rec := false; vb_on := true; sig_on := true; sig_accepts_eth := true; signer_recovered := true;
-     fee_on := true; seq_on := true; e_vb := true; e_sig := true; e_acc := true; e_gas := true; e_seq := true;
+     fee_on := true; seq_on := true; e_vb := true; e_sig := true; e_acc := true; e_gas := true; fee_exact := true; e_seq := true;
      wasm_signer := true; wasm_no_eth := true |}.
 
 Lemma refuted_if_eth_keys_sign_cosmos_txs :
@@ -576,14 +577,14 @@ Qed.
 Definition cfg_signer_from_field : cfg :=
   {| nonevm_known := true; evm_route := RouteEVM; other_route := RouteReject; other_decodable := false;
      g_prevent := true; g_authz := true; g_authz_exec := true; g_authz_rec := false; vb_on := true; sig_on := true; sig_accepts_eth := false; signer_recovered := false;
-     fee_on := true; seq_on := true; e_vb := true; e_sig := true; e_acc := true; e_gas := true; e_seq := true;
+     fee_on := true; seq_on := true; e_vb := true; e_sig := true; e_acc := true; e_gas := true; fee_exact := true; e_seq := true;
      wasm_signer := true; wasm_no_eth := true |}.
 
 Lemma refuted_if_signers_read_from_field :
   exists h x a, Forall (tx_wf harness_world) (h ++ [x]) /\ violated_by cfg_signer_from_field h x a.
 Proof.
   exists [evm_tx [eth 20 0 21000]; evm_tx [eth 20 1 21000]; evm_tx [eth 20 2 21000]],
-         (cos_tx 1 [Exec 1 [Exec 1 [Leaf (EthTxAs 1 20 0 50000 1 1)]]]), 20%nat.
+         (cos_tx 1 [Exec 1 [Exec 1 [Leaf (EthTxAs 1 20 0 50000 WEI 1)]]]), 20%nat.
   split.
   - repeat constructor.
   - unfold violated_by. vm_compute. repeat split; try discriminate; auto.
@@ -593,7 +594,7 @@ Qed.
 Definition cfg_wasm_signer_unchecked : cfg :=
   {| nonevm_known := true; evm_route := RouteEVM; other_route := RouteReject; other_decodable := false;
      g_prevent := true; g_authz := true; g_authz_exec := true; g_authz_rec := false; vb_on := true; sig_on := true; sig_accepts_eth := false; signer_recovered := true;
-     fee_on := true; seq_on := true; e_vb := true; e_sig := true; e_acc := true; e_gas := true; e_seq := true;
+     fee_on := true; seq_on := true; e_vb := true; e_sig := true; e_acc := true; e_gas := true; fee_exact := true; e_seq := true;
      wasm_signer := false; wasm_no_eth := true |}.
 
 Lemma refuted_if_wasm_signer_unchecked :
@@ -610,13 +611,36 @@ Qed.
 Definition cfg_no_nonce_check : cfg :=
   {| nonevm_known := true; evm_route := RouteEVM; other_route := RouteReject; other_decodable := false;
      g_prevent := true; g_authz := true; g_authz_exec := true; g_authz_rec := false; vb_on := true; sig_on := true; sig_accepts_eth := false; signer_recovered := true;
-     fee_on := true; seq_on := true; e_vb := true; e_sig := true; e_acc := true; e_gas := true; e_seq := false;
+     fee_on := true; seq_on := true; e_vb := true; e_sig := true; e_acc := true; e_gas := true; fee_exact := true; e_seq := false;
      wasm_signer := true; wasm_no_eth := true |}.
 
 Lemma refuted_if_nonce_decorator_dropped :
   exists h l, ran (run_history cfg_no_nonce_check harness_world harness_init h) = [l; l].
 Proof.
   exists [evm_tx [eth 20 0 21000]; evm_tx [eth 20 0 21000]]. eexists. vm_compute. reflexivity.
+Qed.
+
+(** per message: the refund never exceeds the exact prepayment WeiToNative(gas limit × price) … *)
+Lemma refund_le_exact_prepay g p : 0 <= p -> refund_of g p <= prepay true g p.
+Proof.
+  intro Hp. unfold refund_of, prepay, GAS_TRANSFER. apply Z.div_le_mono; [unfold WEI; lia|nia].
+Qed.
+
+(** … but it does exceed a prepayment computed from the price truncated to whole unibi per gas: with
+    VerifyFee = WeiToNative(price) × gasLimit, a sender paying 2·10^12 − 1 wei per gas with a generous gas limit is
+    refunded more than was taken from him, out of the fees of the other message of the same transaction *)
+Definition cfg_fee_per_gas : cfg :=
+  {| nonevm_known := true; evm_route := RouteEVM; other_route := RouteReject; other_decodable := false;
+     g_prevent := true; g_authz := true; g_authz_exec := true; g_authz_rec := false; vb_on := true; sig_on := true; sig_accepts_eth := false; signer_recovered := true;
+     fee_on := true; seq_on := true; e_vb := true; e_sig := true; e_acc := true; e_gas := true; fee_exact := false; e_seq := true;
+     wasm_signer := true; wasm_no_eth := true |}.
+
+Lemma refuted_if_fee_priced_per_truncated_gas_price :
+  exists x a, tx_wf harness_world x /\ t_ext x = EvmExt /\
+    bal_of harness_init a < bal_of (fst (deliver cfg_fee_per_gas harness_world harness_init x)) a.
+Proof.
+  exists (evm_tx [Leaf (EthTx 20 0 21000 (3 * WEI) 1); Leaf (EthTx 21 0 100000 (2 * WEI - 1) 1)]), 21%nat.
+  split; [repeat constructor|]. split; [reflexivity|]. vm_compute. reflexivity.
 Qed.
 
 (** ---------------------------------------------------------------- non-vacuity *)
